@@ -724,6 +724,142 @@ func WidenDates(r *RNG, j *Journal) bool {
 	return true
 }
 
+// CornerDay draws the day number of a calendar-corner date: Feb 29 of leap years (incl. the century years divisible by
+// 400), Feb 28 / Mar 1 of leap and non-leap (century) years, the first / 30th / last day of any month, Dec 31 / Jan 1,
+// and any day of the years at the ends of the four-digit range (0001, 0099, 0100, 0999, 1000, 9999).
+func CornerDay(r *RNG) int {
+	day := func(y, m, d int) int { return dayNum(time.Date(y, time.Month(m), d, 0, 0, 0, 0, time.UTC)) }
+	leap := []int{1600, 2000, 2400, 2024, 1996, 2000, 4, 400, 800, 1200, 2004, 2800, 9600, 9996, 1604, 1896, 1904, 2096, 2104}
+	edge := []int{1900, 2100, 2023, 2000, 2024, 1700, 1800, 2200, 100, 1600, 2400, 1999, 2001, 9900}
+	years := []int{1, 2, 99, 100, 999, 1000, 1582, 1752, 1969, 1970, 1999, 2000, 2001, 2038, 2262, 2263, 9998, 9999}
+	anyYear := func() int {
+		if r.Chance(1, 2) {
+			return Pick(r, years)
+		}
+		switch r.Intn(3) {
+		case 0:
+			return r.Range(1, 9999)
+		case 1:
+			return r.Range(1890, 2110)
+		}
+		return 100 * r.Range(1, 99)
+	}
+	return min(max(cornerDayRaw(r, day, leap, edge, anyYear), 0), maxDay)
+}
+
+func cornerDayRaw(r *RNG, day func(y, m, d int) int, leap, edge []int, anyYear func() int) int {
+	switch r.Intn(5) {
+	case 0:
+		return day(Pick(r, leap), 2, 29)
+	case 1:
+		y := Pick(r, edge)
+		return day(y, 3, 1) - r.Intn(3) // Mar 1, the last day of February, the day before
+	case 2:
+		y, m := anyYear(), r.Range(1, 12)
+		last := day(y, m+1, 1) - 1 // time.Date normalises month 13
+		return last - Pick(r, []int{0, 0, 1, 1, -1, 2})
+	case 3:
+		y := anyYear()
+		if r.Bool() {
+			return day(y, 12, 31)
+		}
+		return day(y, 1, 1)
+	default:
+		y := Pick(r, []int{1, 99, 100, 999, 1000, 9999, 1, 9999})
+		return day(y, 1, 1) + r.Intn(365)
+	}
+}
+
+// CornerDates moves the dates of a journal onto calendar corners (CornerDay) without changing their order: the whole
+// journal (accrual windows included) is shifted so that one of its dates lands on a corner, or - journals without
+// accruals - its distinct days are mapped, in order, onto consecutive days around a corner or onto as many corners.
+// Lifecycle, positions and verdict depend on the order of the days only; the date texts a loader has to accept change.
+func CornerDates(r *RNG, j *Journal) string {
+	seen := map[int]bool{}
+	accr := false
+	var all []int
+	for _, d := range j.Dirs {
+		seen[d.Date] = true
+		all = append(all, d.Date)
+		if d.Accrual != nil {
+			accr = true
+			all = append(all, d.Accrual.Start, d.Accrual.End)
+		}
+	}
+	if len(all) == 0 {
+		return ""
+	}
+	var days []int
+	for d := range seen {
+		days = append(days, d)
+	}
+	sort.Ints(days)
+	lo, hi := all[0], all[0]
+	for _, d := range all {
+		lo, hi = min(lo, d), max(hi, d)
+	}
+	mode := r.Intn(3)
+	if accr {
+		mode = 0
+	}
+	switch mode {
+	case 0: // constant shift: one date of the journal (a directive's or an accrual bound) lands on the corner
+		for try := 0; try < 16; try++ {
+			delta := CornerDay(r) - Pick(r, all)
+			if lo+delta < 0 || hi+delta > maxDay {
+				continue
+			}
+			for i := range j.Dirs {
+				j.Dirs[i].Date += delta
+				if a := j.Dirs[i].Accrual; a != nil {
+					b := *a
+					b.Start, b.End = b.Start+delta, b.End+delta
+					j.Dirs[i].Accrual = &b
+				}
+			}
+			return "corner-dates:shift"
+		}
+		return ""
+	case 1: // consecutive days around a corner: ..., Feb 28, Feb 29, Mar 1, ...
+		for try := 0; try < 16; try++ {
+			first := CornerDay(r) - r.Intn(len(days))
+			if first < 0 || first+len(days)-1 > maxDay {
+				continue
+			}
+			to := map[int]int{}
+			for k, d := range days {
+				to[d] = first + k
+			}
+			for i := range j.Dirs {
+				j.Dirs[i].Date = to[j.Dirs[i].Date]
+			}
+			return "corner-dates:run"
+		}
+		return ""
+	default: // every day a corner of its own
+		got := map[int]bool{}
+		var cs []int
+		for try := 0; len(cs) < len(days) && try < 40*len(days); try++ {
+			if c := CornerDay(r); !got[c] {
+				got[c] = true
+				cs = append(cs, c)
+			}
+		}
+		if len(cs) < len(days) {
+			return ""
+		}
+		sort.Ints(cs)
+		to := map[int]int{}
+		for k, d := range days {
+			to[d] = cs[k]
+		}
+		for i := range j.Dirs {
+			j.Dirs[i].Date = to[j.Dirs[i].Date]
+		}
+		return "corner-dates:each"
+	}
+}
+
 func mutateJournal(r *RNG, j *Journal, accounts, coms []string) string {
 	idx := func(kind byte) []int {
 		var res []int
